@@ -605,6 +605,7 @@ type ContractSet struct {
 	Sealed    []string
 	Immutable []string
 	Frames    []*FrameDecl
+	Sweep     map[string]bool // property -> sweep the package's functions without contract for implicit panics
 }
 
 // FrameDecl: the only functions of the package allowed to store to a field.
@@ -743,6 +744,13 @@ func LoadContractFile(path string, trusted bool) (*ContractSet, error) {
 			}
 		case "sealed":
 			cs.Sealed = append(cs.Sealed, strings.Fields(rest)...)
+		case "sweep": // sweep C03: zero-annotation safety sweep of this package under property C03
+			if cs.Sweep == nil {
+				cs.Sweep = map[string]bool{}
+			}
+			for _, pr := range strings.Fields(rest) {
+				cs.Sweep[pr] = true
+			}
 		case "immutable":
 			for _, n := range strings.Fields(rest + " " + joinBody()) {
 				cs.Immutable = append(cs.Immutable, n)
